@@ -235,6 +235,10 @@ func (w *clientWorld) genClientStream() []byte {
 				sb.WriteString("data: more" + eol)
 			}
 		}
+		if ch.Chance(1, 12, "large data line") {
+			// makes the scanner grow and compact its buffer while earlier events' strings are still in use
+			sb.WriteString("data: " + strings.Repeat("L", []int{1200, 2500, 5000}[ch.Intn(3, "large size")]) + eol)
+		}
 		if ch.Chance(1, 8, "unknown field") {
 			sb.WriteString("foo: bar" + eol)
 		}
@@ -300,6 +304,17 @@ func (w *clientWorld) generate() {
 
 // ---------------------------------------------------------------- transport
 
+// timeoutLikeError behaves like net/http's timeout errors: errors.Is(err,
+// context.DeadlineExceeded) holds although no context of the caller expired.
+type timeoutLikeError struct{ what string }
+
+func (e *timeoutLikeError) Error() string   { return "injected: " + e.what + " timed out" }
+func (e *timeoutLikeError) Timeout() bool   { return true }
+func (e *timeoutLikeError) Temporary() bool { return true }
+func (e *timeoutLikeError) Is(target error) bool {
+	return target == context.DeadlineExceeded
+}
+
 type clientRT struct{ w *clientWorld }
 
 type clientBody struct {
@@ -342,6 +357,10 @@ func (rt *clientRT) RoundTrip(req *http.Request) (*http.Response, error) {
 	switch kind {
 	case attDialFail:
 		a.dialErr = newInjected(fmt.Sprintf("dial #%d", a.n))
+		if ch.Chance(1, 5, "dial timeout") {
+			a.dialErr = &timeoutLikeError{what: fmt.Sprintf("dial #%d", a.n)}
+			w.o.probe("transport error that matches a context sentinel while the context is alive")
+		}
 		w.o.fault("transport: dial failure")
 		if ch.Chance(1, 2, "dial takes time") {
 			w.sim.Sleep("dial", []time.Duration{time.Millisecond, 200 * time.Millisecond, 3 * time.Second}[ch.Intn(3, "dial time")])
@@ -380,13 +399,22 @@ func (rt *clientRT) RoundTrip(req *http.Request) (*http.Response, error) {
 		a.endErr = io.EOF
 		w.o.fault("transport: stream ends cleanly")
 	case 1:
-		switch ch.Weighted([]int{4, 3, 1}, "read error kind") {
+		switch ch.Weighted([]int{4, 3, 1, 1, 1}, "read error kind") {
 		case 0:
 			a.endErr = newInjected(fmt.Sprintf("read #%d at %d", a.n, end))
 		case 1:
 			a.endErr = io.ErrUnexpectedEOF // what net/http reports for a connection cut inside the body
 		case 2:
 			a.endErr = &net.OpError{Op: "read", Net: "tcp", Err: syscall.ECONNRESET}
+		case 3:
+			// what http.Client.Timeout / ResponseHeaderTimeout report: matches context.DeadlineExceeded
+			// although the request's own context is alive
+			a.endErr = &timeoutLikeError{what: fmt.Sprintf("read #%d", a.n)}
+			w.o.probe("transport error that matches a context sentinel while the context is alive")
+		case 4:
+			// a transport working with its own per-attempt context
+			a.endErr = fmt.Errorf("transport attempt #%d aborted: %w", a.n, context.Canceled)
+			w.o.probe("transport error that matches a context sentinel while the context is alive")
 		}
 		w.o.fault("transport: stream cut with a read error")
 	case 2:
@@ -859,6 +887,9 @@ func (w *clientWorld) evaluate(res verifhook.Result, bubblePanic string) {
 		if len(evs) > 0 {
 			last = evs[len(evs)-1].ID
 		}
+	}
+	for _, r := range w.sim.Races() {
+		o.violate("C13", "data-race", "lockset violation: %s", r.String())
 	}
 	w.checkEvents()
 	w.checkC10()
@@ -1355,6 +1386,6 @@ func init() {
 		MustProbes: []string{"cancellation in mid-line", "read error in mid-line", "clean end with nothing pending"}, Run: runClientWorld}, "C11")
 	register(&World{Name: "client", Level: "exploration", Rule: common + "Oracle: reference back-off recurrence on the OnRetry values and the simulated instants of attempts." + nontriv, Real: real, Stub: stub, Assumptions: assum,
 		MustProbes: []string{"back-off cap reached", "server retry value overrides the interval", "retry series reset after a successful connection", "Jitter -1 with at least one retry"}, Run: runClientWorld}, "C12")
-	register(&World{Name: "client", Level: "exploration", Rule: common + "Subscriber tasks add and remove callbacks (SubscribeEvent / SubscribeMessages / SubscribeToAll, repeated and stale removers) before Connect and while events are delivered chunk by chunk; oracle: must / may / must-not sets per (callback, event) from the dispatch bracket, at most once, in order." + nontriv, Real: real, Stub: stub, Assumptions: append(assum, "the data-race clause of C13 is not decided (see DESIGN.md): schedules are explored at lock granularity only"),
+	register(&World{Name: "client", Level: "exploration", Rule: common + "Subscriber tasks add and remove callbacks (SubscribeEvent / SubscribeMessages / SubscribeToAll, repeated and stale removers) before Connect and while events are delivered chunk by chunk; oracle: must / may / must-not sets per (callback, event) from the dispatch bracket, at most once, in order." + nontriv, Real: real, Stub: stub, Assumptions: append(assum, "data-race freedom is decided by the Eraser lockset discipline over the map accesses and pointer-field writes the instrumenter reports, using the scheduler's lock model (not by the Go race detector, which the simulator's own wake-ups would blind)"),
 		MustProbes: []string{"callbacks and events in one run", "callback added while connected received events", "callback removed after receiving events"}, Run: runClientWorld}, "C13")
 }
